@@ -21,9 +21,18 @@ func (c *Calcium) Send(ctx context.Context, opts *types.SendOptions) (chan *type
 	_ = c.pool.Invoke(func() {
 		defer close(ch)
 		wg := &sync.WaitGroup{}
-		wg.Add(len(opts.IDs))
-
+		// a target listed twice gets the files once (and one result per file)
+		IDs := make([]string, 0, len(opts.IDs))
+		seen := map[string]struct{}{}
 		for _, ID := range opts.IDs {
+			if _, ok := seen[ID]; !ok {
+				seen[ID] = struct{}{}
+				IDs = append(IDs, ID)
+			}
+		}
+		wg.Add(len(IDs))
+
+		for _, ID := range IDs {
 			logger.Infof(ctx, "Send files to %s", ID)
 			_ = c.pool.Invoke(func(ID string) func() {
 				return func() {
